@@ -1,7 +1,7 @@
 (** C13 — author heads and news detection.
     Proved: the head table holds the per-author maximum after every history of inserts (any
     timestamp order), what [has_news_for] counts, and the size-limited encoding. *)
-From ID Require Import Base.Bytes Model.Entry Model.Put Model.Tables Model.Bounds Model.FsStore Model.StoreOps Model.Heads Proofs.HeadsFacts Proofs.MigrateFacts Proofs.FsPutFacts Proofs.HeadKeyFacts.
+From ID Require Import Base.Bytes Model.Entry Model.Put Model.Tables Model.Bounds Model.FsStore Model.StoreOps Model.Heads Proofs.HeadsFacts Proofs.MigrateFacts Proofs.FsPutFacts Proofs.HeadKeyFacts Proofs.ReachFacts Proofs.ReachRebuild.
 
 Theorem C13_has_news_counts : forall theirs ours,
   has_news theirs ours = N.of_nat (length (filter (is_news ours) theirs)).
@@ -51,6 +51,12 @@ Proof. exact head_keys_exact. Qed.
 Theorem C13_insert_keeps_head_key : forall EH T e, wf_records T -> wf_entry e -> KInv T -> KInv (fst (fs_put prefix_succ EH T e)).
 Proof. exact fs_put_head_key. Qed.
 
+(** ... and in every reachable store, removal and re-creation of documents included (where the stale
+    heads of defect D6 lived): heads are maxima of what is held and name held entries *)
+Theorem C13_heads_in_every_reachable_store : forall EH l, Forall wf_dop l ->
+  HInv (drun EH l) /\ KInv (drun EH l).
+Proof. exact reachable_heads. Qed.
+
 Print Assumptions C13_has_news_counts.
 Print Assumptions C13_encode_nolimit_all.
 Print Assumptions C13_encoded_items_are_the_heads.
@@ -76,3 +82,4 @@ Print Assumptions C13_heads_are_maxima.
 Print Assumptions C13_insert_keeps_heads.
 Print Assumptions C13_head_names_a_held_entry.
 Print Assumptions C13_insert_keeps_head_key.
+Print Assumptions C13_heads_in_every_reachable_store.
